@@ -17,6 +17,7 @@ CONSTANTS
   HasFallback = TRUE
   AllowClose = FALSE
   AllowDo = TRUE
+  AllowIndicate = TRUE
   IdleCollects = 2
   RtoChanges = 2
   DeadlineTicks = FALSE
